@@ -109,7 +109,10 @@ mutant('c13-prefix-order', 'C13', PA,
 mutant('c13-type-order', 'C13', INF,
        "                         for k in sorted(definitions, key=lambda k: (len(k), k))]\n",
        "                         for k in sorted(definitions, key=len)]\n",
-       'record type definitions tie-broken by encounter order (the repaired defect)')
+       'record type definitions tie-broken by encounter order (repaired defect 4). Since repair 7 every '
+       'FormattedPredicateSql starts from the same program-wide definitions, so the encounter order is the '
+       'same with and without history: reverting this tie-break alone is masked (it was killed before repair 7)',
+       expect='any')
 mutant('c13-type-leak', 'C13', UN,
        "    self.required_type_definitions = dict(self.program_type_definitions)\n    self.typing_preamble = self.program_typing_preamble\n",
        "",
